@@ -59,7 +59,7 @@ def bmc(proto: Protocol, K, timeout_ms, eager=False):
     T = proto.T
     sol = z3.Solver()
     sol.set("timeout", timeout_ms)
-    P0 = z3.Int("P0")
+    P0 = proto.P0
     states = [SysState(0, T)]
     sol.add(proto.init(states[0], P0))
     whos = []
@@ -113,7 +113,7 @@ def inductive(proto: Protocol, timeout_ms):
     t0 = time.time()
     sol = z3.Solver()
     sol.set("timeout", timeout_ms)
-    P0 = z3.Int("P0")
+    P0 = proto.P0
     s0 = SysState("i0", T)
     sol.add(proto.init(s0, P0), z3.Not(proto.inv(s0)))
     r0 = sol.check()
@@ -121,7 +121,7 @@ def inductive(proto: Protocol, timeout_ms):
     sol.set("timeout", timeout_ms)
     s, t = SysState("a", T), SysState("b", T)
     f, who = proto.step(s, t, "i")
-    sol.add(proto.inv(s), f, z3.Not(proto.inv(t)))
+    sol.add(proto.inv(s), f, z3.Not(proto.inv(t)), P0 >= 0, P0 <= proto.lmax)
     r = sol.check()
     res = {"base": str(r0), "step": str(r), "time": time.time() - t0, "T": T}
     if r == z3.sat:
